@@ -323,10 +323,16 @@ package smf
 //@ ensures [P:C11] (len(t) == 0 || t[0].AbsTicks > absTicks) ==> bpm == 120.0
 //@ ensures [P:C11] forall k int :: tcLast(t, k, absTicks) ==> bpm == t[k].BPM
 
+// bookkeeping of the cumulative times: the running tick and time are those of the entry just processed, and an
+// entry at the tick of the previous entry gets the previous entry's time. (The time of an entry at a later tick -
+// time of the change in force before it plus the duration of the ticks in between at that change's tempo - is the
+// same kind of clause as TimeAt's and does not discharge here within the limit: not claimed.)
 //@ func (*SMF).calculateAbsTimes
 //@ requires tcsOK(s.tempoChanges)
 //@ modifies any(TempoChange).AbsTimeMicroSec
-//@ loop 0 invariant -1 <= rangeindex && rangeindex < len(s.tempoChanges) && s.tempoChanges == old(s.tempoChanges) && tcsOK(s.tempoChanges)
+//@ loop 0 invariant -1 <= rangeindex && rangeindex < len(s.tempoChanges) && s.tempoChanges == old(s.tempoChanges) && tcsOK(s.tempoChanges) && s.TimeFormat == old(s.TimeFormat)
+//@ loop 0 invariant (rangeindex == -1 ==> (lasttcTick == 0 && lasttcTimeMicroSec == 0)) && (rangeindex >= 0 ==> (lasttcTick == s.tempoChanges[rangeindex].AbsTicks && lasttcTimeMicroSec == s.tempoChanges[rangeindex].AbsTimeMicroSec))
+//@ loop 0 invariant [P:C11] (rangeindex >= 1 && s.tempoChanges[rangeindex].AbsTicks == s.tempoChanges[rangeindex-1].AbsTicks) ==> s.tempoChanges[rangeindex].AbsTimeMicroSec == s.tempoChanges[rangeindex-1].AbsTimeMicroSec
 //@ loop 0 decreases len(s.tempoChanges) - rangeindex
 
 //@ func (*SMF).finishTempoChanges
